@@ -293,7 +293,7 @@ const JanetKV *janet_table_to_struct(JanetTable *t) {
 
 JanetTable *janet_table_proto_flatten(JanetTable *t) {
     JanetTable *newTable = janet_table(0);
-    while (t) {
+    for (int i = JANET_MAX_PROTO_DEPTH; t && i; --i) {
         JanetKV *kv = t->data;
         JanetKV *end = t->data + t->capacity;
         while (kv < end) {
